@@ -295,7 +295,7 @@ class LineSegment2D(Base1DIn2D):
 
     def __key(self):
         """A tuple based on the object properties, useful for hashing."""
-        return (hash(self.p), hash(self.v))
+        return (self.p, self.v)
 
     def __hash__(self):
         return hash(self.__key())
